@@ -233,6 +233,9 @@ func bedDrive(args []string) error {
 			before := bedProject(b)
 			ev := bedEvent{Sid: sid, Op: "write", Rec: before, Bytes: []int{}, U8: [][]any{}, Want: []bedItem{}, Items: []bedItem{}}
 			buf := &bytes.Buffer{}
+			if sid%4 == 1 {
+				failedWriteFirst(b.Write)
+			}
 			ev.Panic, _ = catch(func() { ev.WErr = b.Write(buf) != nil })
 			var bm []byte
 			p2, _ := catch(func() {
@@ -267,8 +270,12 @@ func bedDrive(args []string) error {
 			nrec = 0
 		}
 		for i := 0; i < nrec; i++ {
+			if sid%9 == 2 && i == 1 { // a comment line can be long, too
+				file = append(file, ("#" + strings.Repeat("c", []int{4999, 4095, 65535, 69999}[(sid/9)%4]) + "\n")...)
+			}
 			if i > 0 && r.Intn(8) == 0 {
 				file = append(file, "# a comment\t\"line\n"...)
+
 			}
 			if i > 0 && r.Intn(10) == 0 {
 				file = append(file, '\n')
